@@ -3,6 +3,7 @@ package main
 // rules_loop.go: receive-loop rules (C03.*), id validation and late frames (C07.6, C08.4), shutdown gate (C10.1).
 
 import (
+	"go/types"
 	"fmt"
 	"go/token"
 	"sort"
@@ -40,7 +41,7 @@ func (c *Ctx) loopRecv(loop *ssa.Function) ssa.Instruction {
 func (c *Ctx) loopException(fn *ssa.Function, e Effect) (string, bool) {
 	r := c.receivers()
 	if r.plain != nil {
-		if n := recvNamed(fn); n != nil && n.Obj() == r.plain.Obj() && fn.Name() == "accept" && e.Kind == "select-blocking" {
+		if n := recvNamed(fn); n != nil && n.Obj() == r.plain.Obj() && fn.Name() == c.W.mName("accept") && e.Kind == "select-blocking" {
 			return "the plain (revision-zero) receiver's hand-off blocks by design; C03 exempts tunnels without flow control, and C11.6 checks it is used only at revision zero", true
 		}
 	}
@@ -112,7 +113,7 @@ func ruleLoopEffects(c *Ctx, rule string) {
 // frozen exceptions of C03.2: lock -> (allowed effect predicate, reason). An exception names the one
 // construct it covers: any other blocking effect under the same lock is still a violation.
 type lockException struct {
-	allow  func(kind, fn string) bool
+	allow  func(kind string, fn *ssa.Function) bool
 	reason string
 }
 
@@ -125,9 +126,19 @@ func (c *Ctx) shortLockExceptions() map[string]lockException {
 			if rn := recvNamed(s.Parent()); rn != nil && rn.Obj() == a.SS.Obj() {
 				for _, l := range perStreamLocks(c.W.Locks().MustAt(s), a.SS) {
 					out[l] = lockException{
-						allow: func(kind, fn string) bool {
+						allow: func(kind string, fn *ssa.Function) bool {
 							// flow-control wait and carrier sends of the stream's own frames
-							return kind == "carrier-send" || (kind == "select-blocking" && strings.Contains(fn, "Sender).send"))
+							if kind == "carrier-send" {
+								return true
+							}
+							if kind == "select-blocking" {
+								for _, impl := range c.senderImpls() {
+									if impl == fn {
+										return true
+									}
+								}
+							}
+							return false
 						},
 						reason: "held across the flow-control wait and carrier sends by design; safe for the loop because the finishing function cancels the stream context before taking it (C07.7) and a holder blocked on the carrier is released by the peer's loop, which never waits on us (C03.1, conforming peer)",
 					}
@@ -139,13 +150,22 @@ func (c *Ctx) shortLockExceptions() map[string]lockException {
 	if r.plain != nil {
 		pn := r.plain.Obj().Name()
 		out[pn+".ingestMu"] = lockException{
-			allow:  func(kind, fn string) bool { return kind == "select-blocking" && strings.Contains(fn, pn) && strings.HasSuffix(fn, ".accept") },
+			allow: func(kind string, fn *ssa.Function) bool {
+				n := recvNamed(fn)
+				return kind == "select-blocking" && n != nil && n.Obj().Name() == pn && fn.Name() == c.W.mName("accept")
+			},
 			reason: "plain (revision-zero) receiver: blocking hand-off by design, exempted by C03",
 		}
 	}
 	out["ReverseTunnelServer.mu"] = lockException{
-		allow: func(kind, fn string) bool {
-			return kind == "carrier-closesend" && (fn == "(*ReverseTunnelServer).Stop" || strings.HasPrefix(fn, "(*threadSafe"))
+		allow: func(kind string, fn *ssa.Function) bool {
+			if kind != "carrier-closesend" {
+				return false
+			}
+			if c.W.Short(fn) == "(*ReverseTunnelServer).Stop" {
+				return true
+			}
+			return fn.Signature.Recv() != nil && c.W.isCarrierType(fn.Signature.Recv().Type())
 		},
 		reason: "held across CloseSend only in Stop (shutdown path, bounded by the transport); the loop takes it only to read the state",
 	}
@@ -189,7 +209,7 @@ func ruleShortLocks(c *Ctx, rule string) {
 	sort.Strings(names)
 	c.floor(rule, len(names), 6, "locks acquired on a receive loop's goroutine")
 	for _, l := range names {
-		if strings.Contains(l, "sendMu") || strings.Contains(l, "recvMu") {
+		if c.isWrapperMutex(l) {
 			// carrier wrapper mutexes: held around the carrier op itself by construction (C15.2)
 			c.exception(rule, "lock "+l, "-", "carrier wrapper mutex: exists to serialise the carrier operation itself; the loop takes only the receive side for its own Recv")
 			continue
@@ -205,7 +225,7 @@ func ruleShortLocks(c *Ctx, rule string) {
 				}
 				may := lf.MayAt(e.Instr)
 				if may[l] || may[l+":R"] {
-					if ex, has := exc[l]; has && ex.allow(e.Kind, w.Short(fn)) {
+					if ex, has := exc[l]; has && ex.allow(e.Kind, fn) {
 						excused = append(excused, fmt.Sprintf("%s in %s at %s", e.Kind, w.Short(fn), w.At(e.Instr)))
 						continue
 					}
@@ -459,7 +479,7 @@ func ruleErrorSplit(c *Ctx, rule string) {
 		// receiver.accept error -> finishing function
 		var accCall *ssa.Call
 		allInstrs(side.acc, func(in ssa.Instruction) {
-			if call, ok := in.(*ssa.Call); ok && call.Call.IsInvoke() && call.Call.Method.Name() == "accept" {
+			if call, ok := in.(*ssa.Call); ok && call.Call.IsInvoke() && ifaceMethodRole(call.Call.Method) == "accept" {
 				accCall = call
 			}
 		})
@@ -762,4 +782,12 @@ func ruleShutdownGate(c *Ctx, rule string) {
 		}
 		c.check(onFalse, rule, fmt.Sprintf("%s decided only when not shutting down", what), w.At(cr.ret), "dominated by !isClosing()", "this stream-level rejection can be returned while the server is shutting down (it is not dominated by the false edge of the shutting-down predicate): during drain such an RPC gets this permanent error instead of Unavailable")
 	}
+}
+
+// isWrapperMutex: l is a mutex field of a carrier wrapper type.
+func (c *Ctx) isWrapperMutex(l string) bool {
+	w := c.W
+	tn := strings.SplitN(l, ".", 2)[0]
+	nt := w.rootNamed(tn)
+	return nt != nil && w.isCarrierType(types.NewPointer(nt))
 }
